@@ -112,6 +112,21 @@ def copy_protocol_is_deep(chk, rule: str) -> None:
                 chk.ob(rule, f, not shared, f'{c.name}.{name} returns {_norm(v) if v is not None else "None"}: '
                        + ('the "copy" is the object itself -- every deep copy that is supposed to detach a snapshot stops here' if shared else 'a newly built object'),
                        node=r, kind=f'copy-protocol:{c.name}.{name}')
+    # ... and a copy has the CLASS of what was copied: a class that has subclasses in the package and rebuilds itself under its own name (``return Frozendict, (...)``)
+    # turns every subclass instance into a base instance at the first deepcopy / pickle -- a save/load round trip (the nested input namespaces lose attribute access)
+    for c in chk.prog.all_classes():
+        if not chk.prog.subclasses(c):
+            continue
+        for name in ('__reduce__', '__reduce_ex__', '__deepcopy__', '__copy__'):
+            f = c.vmethods.get(name)
+            if f is None:
+                continue
+            for r in [x for x in _ast.walk(f.node) if isinstance(x, _ast.Return) and x.value is not None]:
+                v = r.value
+                head = v.elts[0] if isinstance(v, _ast.Tuple) and v.elts else (v.func if isinstance(v, _ast.Call) else None)
+                fixed = isinstance(head, _ast.Name) and chk.prog.resolve_class(f.module, head) is not None
+                chk.ob(rule, f, not fixed, f'{c.name}.{name} rebuilds the object as ' + (f'{_norm(head)} -- a fixed class: an instance of a subclass ({chk.prog.subclasses(c)[0].name}) comes back as a plain '
+                       f'{_norm(head)} from every copy, pickle or checkpoint' if fixed else 'an instance of its own class'), node=r, kind=f'copy-keeps-class:{c.name}.{name}')
     chk.units['copy_protocol_overrides'] = n
     chk.ob(rule, 'plumpy', True, f'{n} class(es) override the copy protocol; none hands back itself', kind='copy-protocol-scan', expr='copy protocol')
 
@@ -221,7 +236,7 @@ def outcome_read_after_cancel_test(chk, rule: str, qual: str, what: str) -> None
     chk.ob(rule, f, n >= 1, f'{what}: {n} outcome read(s) examined', kind='outcome-reads')
 
 
-def sentinels_are_unique_objects(chk, rule: str, modules=('ports',)) -> None:
+def sentinels_are_unique_objects(chk, rule: str, modules=('ports',), parts=('unique', 'copy')) -> None:
     """A module constant that code tells apart with ``is`` / ``is not`` stands for "no value given": it must be an object nobody else can
     produce (``object()``, an instance of a private class).  A literal -- ``()`` -- is shared with every equal literal: CPython has ONE empty
     tuple, so a caller's ``()`` IS the sentinel."""
@@ -243,9 +258,23 @@ def sentinels_are_unique_objects(chk, rule: str, modules=('ports',)) -> None:
                 continue
             n += 1
             literal = isinstance(v, (_ast.Tuple, _ast.Constant, _ast.List, _ast.Dict, _ast.Set)) and not (isinstance(v, _ast.Constant) and v.value is None)
-            chk.ob(rule, f'{mod.short}.{name}', not literal, f'{name} = {_norm(v)} is compared by identity: ' + ('a unique object' if not literal else
+            if 'unique' in parts:
+              chk.ob(rule, f'{mod.short}.{name}', not literal, f'{name} = {_norm(v)} is compared by identity: ' + ('a unique object' if not literal else
                    'a literal every equal value is identical to -- a caller passing that value is treated as having passed nothing (type check and validator skipped for an optional '
                    'port, "required value was not provided" for a port that accepts it)'), kind='sentinel-unique', expr=name)
+            # ... and an identity that SURVIVES COPYING: ports are deep-copied when they are exposed (absorb) and when specs are inherited; ``copy.deepcopy``
+            # hands back the same object for the builtin singletons, but rebuilds an instance of a class (a tuple subclass included) unless the class says
+            # otherwise -- the copied port's "no default" marker is then a different object and ``is UNSPECIFIED`` is false: the exposed port "has a default"
+            if 'copy' in parts and not literal and isinstance(v, _ast.Call):
+                k = prog.resolve_class(mod, v.func)
+                if k is not None:
+                    stable = all(any(isinstance(r, _ast.Return) and _norm(r.value) in ('self', name) for r in _ast.walk(k.vmethods[m_].node)) for m_ in ('__deepcopy__', '__copy__')
+                                 if m_ in k.methods) and '__deepcopy__' in k.methods and '__copy__' in k.methods
+                    red = k.vmethods.get('__reduce__')
+                    stable = stable or (red is not None and any(isinstance(r, _ast.Return) and isinstance(r.value, _ast.Constant) and r.value.value == name for r in _ast.walk(red.node)))
+                    chk.ob(rule, f'{mod.short}.{name}', stable, f'{name} is an instance of {k.name} and is compared by identity: ' + ('copying it gives the same object' if stable else
+                           f'{k.name} defines no __deepcopy__/__copy__ (or __reduce__) that hands back the one instance, so every deep copy of a port -- exposing, inheriting a spec -- '
+                           'carries a different marker and the copy reports a default it does not have'), kind='sentinel-copy-stable', expr=name)
     chk.units['identity_sentinels'] = n
 
 
